@@ -9,6 +9,9 @@ Decided structural clauses:
  D4 variance never negative: every element is flipped under a `< 0` test
  D5 moment layout agreement between the producer of the combined moments ([1, 2]) and its consumers (first / second half)
  D6 the weighted midpoint lies strictly inside: fallbacks are taken exactly when a < mid < b fails; the split asserts it
+ D7 cached interval moments: zeroth and first moment use different caches, each keyed by the full interval (x1, x2); the value
+    stored is the one computed for that interval; the zeroth moment is cdf(x2) - cdf(x1), the first the integral of x*pdf(x) over
+    (x1, x2)
 Not decided: sum == 1 with boundary, agreement with the unweighted rule, equal-probability split, affine covariance."""
 import ast
 
@@ -336,6 +339,9 @@ def run(prog, ctx):
                       "%s: %s" % (fi.name, why))
     ctx.floor("C15.D5", n5, 2, "consumers of the combined moment vector")
 
+    # ------------------------------------------------------------------ D7
+    check_moment_caches(prog, ctx)
+
     # ------------------------------------------------------------------ D6
     gmw = prog.func(GW + ".get_middle_weighted")
     ctx.touch(gmw)
@@ -399,3 +405,60 @@ def run(prog, ctx):
     ctx.check(okm, "C15.D6", R.key_of(gmp, "uses-own-distribution"), gmp.loc(),
               "the midpoint of dimension d uses cdf and ppf of the distribution of dimension d",
               "get_mid_point does not use cdf and ppf of the same distribution self.distributions[d]")
+
+
+def check_moment_caches(prog, ctx):
+    from ..absint import poly_of_term, Poly
+    UD = "GridOperation.UQDistribution"
+    slots = {}
+    for name in ("get_zeroth_moment", "get_first_moment"):
+        fi = prog.func(UD + "." + name)
+        ctx.touch(fi)
+        tm = Terms(fi.node)
+        tm0 = Terms(fi.node, max_depth=0)
+        x1, x2 = fi.params[1], fi.params[2]
+        key = ("tuple", ("n", x1), ("n", x2))
+        problems = []
+        cdefs = [b for b in tm0.env.bindings.get("cache", []) if b.kind == "assign"]
+        slot = tm0.term(cdefs[0].value) if len(cdefs) == 1 else None
+        if not (slot and slot[0] == "s" and slot[1] == ("a", ("n", "self"), "cached_moments") and slot[2][0] == "c"):
+            problems.append("the cache is not one fixed slot of self.cached_moments")
+        else:
+            slots[name] = slot[2][1]
+        subs = [n for n in ast.walk(fi.node) if isinstance(n, ast.Subscript) and isinstance(n.value, ast.Name) and n.value.id == "cache"]
+        mem = [n for n in ast.walk(fi.node) if isinstance(n, ast.Compare) and isinstance(n.ops[0], ast.In) and isinstance(n.comparators[0], ast.Name)
+               and n.comparators[0].id == "cache"]
+        keys = {repr(tm0.term(n.slice)) for n in subs} | {repr(tm0.term(n.left)) for n in mem}
+        if keys != {repr(key)} or not mem or len(subs) < 2:
+            problems.append("membership test, lookup and store do not all use the key (x1, x2)")
+        stores = [st for st in walk_local(fi.node) if isinstance(st, ast.Assign) and st.targets[0] in subs]
+        rets = R.return_paths(fi)[0]
+        comp = None
+        for st in stores:
+            v = tm0.term(st.value)
+            if v[0] == "n":
+                b = R.reaching_unique_def(fi, v[1], st.value)
+                comp = tm.term(b.value) if b is not None and b.kind == "assign" else None
+                if not any(tm0.term(r.ast.value) == v for r in rets):
+                    problems.append("the value stored in the cache is not the value returned")
+        if comp is None:
+            problems.append("no computed value is stored")
+        elif name == "get_zeroth_moment":
+            want = Poly.atom(("call", ("a", ("n", "self"), "cdf"), (("n", x2),), ())) - Poly.atom(("call", ("a", ("n", "self"), "cdf"), (("n", x1),), ()))
+            if poly_of_term(comp) != want:
+                problems.append("the zeroth moment %s is not cdf(x2) - cdf(x1)" % show(comp))
+        else:
+            q = [x for x in subterms(comp) if x[0] == "call" and x[1][0] == "a" and x[1][2] == "quad"]
+            good = False
+            for x in q:
+                if len(x[2]) >= 3 and x[2][1] == ("n", x1) and x[2][2] == ("n", x2) and x[2][0][0] == "lambda":
+                    body = x[2][0][2]
+                    good = body == ("op", "Mult", tuple(sorted((("bv", "$0"), ("call", ("a", ("n", "self"), "pdf"), (("bv", "$0"),), ())), key=repr)))
+            if not good:
+                problems.append("the first moment is not the integral of x * pdf(x) over (x1, x2)")
+        ctx.check(not problems, "C15.D7", R.key_of(fi, "cached-moment"), fi.loc(),
+                  "keyed by the whole interval, stores what it computes, computes the right moment",
+                  "%s: %s" % (name, "; ".join(problems)))
+    ctx.check(len(set(slots.values())) == 2, "C15.D7", UD + "::separate-caches", prog.func(UD + ".get_zeroth_moment").loc(),
+              "zeroth and first moments are cached separately (slots %s)" % slots,
+              "zeroth and first moment share a cache slot %s: one is returned in place of the other" % slots)
